@@ -401,4 +401,78 @@ func TestC06(t *testing.T) {
 	rapidProp(t, st, "node-tapes", perShard(pick(400, 10000)), 2,
 		func(rt *rapid.T) tPlan { return genTPlan(rt, pairs, 2, true) },
 		func(p tPlan) *viol { return c06Run(t, st, p) })
+	rapidProp(t, st, "wide-walks", perShard(pick(600, 30000)), 13, c06GenWide, func(w c05Walk) *viol { return c06RunWide(st, w) })
+}
+
+// ---- wide rounds: the reference counter over rounds with many participants (FSM level) -----------------------------
+
+func c06GenWide(rt *rapid.T) c05Walk {
+	n := rapid.IntRange(6, 24).Draw(rt, "n")
+	w := c05Walk{N: n, T: rapid.IntRange(2, n).Draw(rt, "t")}
+	k := rapid.IntRange(n, 4*n+30).Draw(rt, "len")
+	for i := 0; i < k; i++ {
+		w.Steps = append(w.Steps, c05Choice{Useful: rapid.IntRange(0, 19).Draw(rt, "useful") < 17, Idx: rapid.IntRange(0, 8000).Draw(rt, "idx")})
+	}
+	return w
+}
+
+func c06RunWide(st *vstat.Stats, w c05Walk) *viol {
+	alphabet := sxAlphabet(w.N)
+	dump := sxIdleDump(w.N, w.T)
+	o := sxOracle{State: "idle"}
+	var hist []string
+	recon, cancelled := 0, 0
+	for si, c := range w.Steps {
+		var useful []sxEvent
+		switch o.State {
+		case "idle", "cancelled":
+			useful = []sxEvent{{string(sif.EventSigningStart), c.Idx % w.N, []string{"B1", "B2"}[(c.Idx/w.N)%2], "valid"}}
+		case "collecting":
+			for p := 0; p < w.N; p++ {
+				if (o.A|o.F)&(1<<uint(p)) == 0 {
+					useful = append(useful, sxEvent{string(sif.EventSigningPartialSignReceived), p, o.Batch, "valid"})
+					if p%5 == 0 {
+						useful = append(useful, sxEvent{string(sif.EventSigningPartialSignError), p, "", "valid"})
+					}
+				}
+			}
+		}
+		var e sxEvent
+		if c.Useful && len(useful) > 0 {
+			e = useful[c.Idx%len(useful)]
+		} else {
+			e = alphabet[c.Idx%len(alphabet)]
+		}
+		res, collected := sxStep(dump, e)
+		hist = append(hist, fmt.Sprintf("%v->%v", e, res.Accepted))
+		post, v := sxJudge(o, e, res, collected, w.N, w.T)
+		if v != nil {
+			return violf("wide:"+v.Key, "n=%d t=%d step %d of %v: %s", w.N, w.T, si, hist, v.What)
+		}
+		if collected {
+			recon++
+		}
+		if post.State == "cancelled" && o.State != "cancelled" {
+			cancelled++
+		}
+		if res.Dump != nil {
+			dump = res.Dump
+		}
+		o = post
+	}
+	size := "6-9"
+	if w.N >= 17 {
+		size = "17-24"
+	} else if w.N >= 10 {
+		size = "10-16"
+	}
+	st.Class(fmt.Sprintf("wide:n=%s:reconstructions=%d", size, min(recon, 3)))
+	if cancelled > 0 {
+		st.Class("wide:batch-cancelled:n=" + size)
+	}
+	if recon > 0 || cancelled > 0 {
+		st.NonTrivial("wide/" + strings.Join(hist, ";"))
+		st.SampleEvery(100, map[string]any{"n": w.N, "t": w.T, "wide_walk_length": len(hist), "reconstructions": recon, "cancelled_batches": cancelled})
+	}
+	return nil
 }
